@@ -98,7 +98,7 @@ def runScriptWith (c : ScriptIn) (dflt : Bool) : String :=
     let w := shutdownAll r.1
     let res := match r.2 with
       | .ok => "ok"
-      | .failed l k => s!"failed {l} {failKindStr k}"
+      | .failed l k d => s!"failed {l} {failKindStr k} {hx d}"
       | .crashed => "crashed"
     let evs := canonTrace w.trace
     evs.foldl (fun acc e => acc ++ " " ++ encEv e) s!"{res} {evs.length}"
